@@ -73,7 +73,7 @@ func msRank(c *Ctx, t *an.Term) (int, string) {
 	switch t.Op {
 	case "param":
 		return 0, "argument"
-	case "const":
+	case "const", "make":
 		return -1, "nil"
 	}
 	if ap, ok := t.APOf(); ok && strings.HasSuffix(ap, ".ms") {
@@ -160,14 +160,7 @@ func ruleConcatRank(c *Ctx, rule string) {
 			}
 			first := call.Args[0]
 			fap := an.AP(first)
-			owned := false
-			switch first.(type) {
-			case *ssa.Const, *ssa.MakeSlice, *ssa.Slice:
-				owned = true // nil / fresh / explicit reslice
-			}
-			if t := c.O.Of(first); t.Op == "call" && (t.S == "slices.Clone" || t.S == "slices.Concat") {
-				owned = true
-			}
+			owned := ownedSlice(c, first, 0)
 			// result stored back into the same location
 			back := false
 			for _, r := range *v.Referrers() {
@@ -345,7 +338,7 @@ func ruleRetroactive(c *Ctx, rule string) {
 	c.R.Add(rule, c.fk(gadd), "applies-group-list-once", c.P.Pos(gadd.Pos()), n == 1 && okArg, ifelse(n == 1 && okArg, "r.Use(g.ms...) exactly once", fmt.Sprintf("Group.Add applies the group's middlewares %d times (argument ok: %v)", n, okArg)))
 	an.AllInstrs(gadd, func(in ssa.Instruction) {
 		if _, ok := calleeIs(in, use); ok {
-			dom := an.DominatedByEdge(in, noDuplicateNameEdge)
+			dom := dupCheckedBefore(c, in)
 			c.R.Add(rule, c.fk(gadd), "applies-only-after-duplicate-check", c.pos(in), dom, ifelse(dom, "the group's middlewares are applied only when the router is accepted", "Group.Add wraps the router's handlers before the duplicate-name check: a rejected Add leaves them wrapped, and adding the router again applies the group's middlewares twice"))
 		}
 	})
@@ -385,62 +378,55 @@ func ruleWrapSites(c *Ctx, rule string) {
 	a := c.A
 	amw := applyMW(c)
 	c.R.Rule(c.R.Property+"."+rule, 8, "every middleware factory is invoked with that handler's method ('' for 404/405), full pattern ('' for 404, TRACE) and router name")
+	_ = amw
+	judge := func(f *ssa.Function, at ssa.Instruction, dest, key string, wargs []*an.Term) {
+		method, pattern, router := wargs[1].String(), wargs[2].String(), wargs[3].String()
+		var want [3]string
+		desc := ""
+		switch {
+		case strings.HasPrefix(dest, "handlers:"):
+			node := strings.TrimPrefix(dest, "handlers:")
+			want[0] = key
+			if pattern == node+"."+a.FPattern {
+				want[1] = pattern
+			} else {
+				want[1] = "param:pattern"
+			}
+			want[2] = node + "." + a.FRoot + "." + a.FTreeName
+			desc = "handler-map[" + key + "]"
+		case dest == "field:recv."+a.FNotFound && strings.HasPrefix(c.fk(f), "tree."):
+			want = [3]string{`""`, `""`, "recv." + a.FTreeName}
+			desc = "tree-404"
+		case dest == "field:recv."+a.FTrace:
+			want = [3]string{`"TRACE"`, `""`, "recv." + a.FTreeName}
+			desc = "tree-TRACE"
+		case dest == "field:recv.notFound":
+			want = [3]string{`""`, `""`, `""`}
+			desc = "group-404"
+		default:
+			return
+		}
+		good := method == want[0] && pattern == want[1] && router == want[2]
+		c.R.Add(rule, c.fk(f), "wrap:"+desc, c.pos(at), good, ifelse(good, fmt.Sprintf("wrapped with (%s, %s, %s)", method, pattern, router), fmt.Sprintf("wrapped with (%s, %s, %s), the contract is (%s, %s, %s)", method, pattern, router, want[0], want[1], want[2])))
+	}
 	for _, f := range c.libFuncs() {
 		an.AllInstrs(f, func(in ssa.Instruction) {
-			call, ok := in.(*ssa.Call)
-			if !ok {
-				return
-			}
-			if callee := an.StaticCallee(&call.Call); callee != amw {
-				return
-			}
-			args := call.Call.Args
-			method, pattern, router := c.O.Of(args[1]).String(), c.O.Of(args[2]).String(), c.O.Of(args[3]).String()
-			// destination
-			dest, key := "", ""
-			for _, r := range *call.Referrers() {
-				switch x := r.(type) {
-				case *ssa.MapUpdate:
-					if x.Value == ssa.Value(call) {
-						if base, isH := fieldLoadOf(x.Map, a.NodeT, a.FHandlers); isH {
-							dest, key = "handlers:"+base, c.O.Of(x.Key).String()
-						}
-					}
-				case *ssa.Store:
-					if base, field, _, ok := fieldStoreAny(x); ok && x.Val == ssa.Value(call) {
-						dest = "field:" + base + "." + field
+			switch x := in.(type) {
+			case *ssa.MapUpdate:
+				base, isH := fieldLoadOf(x.Map, a.NodeT, a.FHandlers)
+				if !isH {
+					return
+				}
+				if wargs, ok := c.resolveWrap(x.Value, 0); ok {
+					judge(f, in, "handlers:"+base, c.O.Of(x.Key).String(), wargs)
+				}
+			case *ssa.Store:
+				if base, field, _, ok := fieldStoreAny(x); ok {
+					if wargs, ok := c.resolveWrap(x.Val, 0); ok {
+						judge(f, in, "field:"+base+"."+field, "", wargs)
 					}
 				}
 			}
-			var want [3]string
-			desc := ""
-			switch {
-			case strings.HasPrefix(dest, "handlers:"):
-				node := strings.TrimPrefix(dest, "handlers:")
-				want[0] = key
-				// the node's full pattern: its pattern field, or the pattern parameter that Tree.Add passes through unchanged
-				if pattern == node+"."+a.FPattern {
-					want[1] = pattern
-				} else {
-					want[1] = "param:pattern"
-				}
-				want[2] = node + "." + a.FRoot + "." + a.FTreeName
-				desc = "handler-map[" + key + "]"
-			case dest == "field:recv."+a.FNotFound && strings.HasPrefix(c.fk(f), "tree."):
-				want = [3]string{`""`, `""`, "recv." + a.FTreeName}
-				desc = "tree-404"
-			case dest == "field:recv."+a.FTrace:
-				want = [3]string{`"TRACE"`, `""`, "recv." + a.FTreeName}
-				desc = "tree-TRACE"
-			case dest == "field:recv.notFound":
-				want = [3]string{`""`, `""`, `""`}
-				desc = "group-404"
-			default:
-				c.R.Add(rule, c.fk(f), "wrap:unknown-destination", c.pos(in), false, "a handler is wrapped but the result is not stored in a handler map or handler field: "+dest)
-				return
-			}
-			good := method == want[0] && pattern == want[1] && router == want[2]
-			c.R.Add(rule, c.fk(f), "wrap:"+desc, c.pos(in), good, ifelse(good, fmt.Sprintf("wrapped with (%s, %s, %s)", method, pattern, router), fmt.Sprintf("wrapped with (%s, %s, %s), the contract is (%s, %s, %s)", method, pattern, router, want[0], want[1], want[2])))
 		})
 	}
 	// Tree.Add passes its pattern through to the installer unchanged
@@ -455,4 +441,32 @@ func ruleWrapSites(c *Ctx, rule string) {
 		}
 	})
 	c.R.Add(rule, c.fk(a.TreeAdd), "passes(h,pattern,ms)-unchanged", c.P.Pos(a.TreeAdd.Pos()), okPass, ifelse(okPass, "the installer receives the API's handler, pattern and list", "Tree.Add does not pass its handler, pattern and middleware list unchanged to the installer"))
+}
+
+// ownedSlice: the slice is freshly allocated in this function (make, nil, Clone/Concat result, or an append onto such).
+func ownedSlice(c *Ctx, v ssa.Value, depth int) bool {
+	if depth > 6 {
+		return false
+	}
+	switch x := v.(type) {
+	case *ssa.Const, *ssa.MakeSlice:
+		return true
+	case *ssa.Slice:
+		return ownedSlice(c, x.X, depth+1)
+	case *ssa.Phi:
+		for _, e := range x.Edges {
+			if e != ssa.Value(x) && !ownedSlice(c, e, depth+1) {
+				return false
+			}
+		}
+		return true
+	case *ssa.Call:
+		switch an.CalleeName(&x.Call) {
+		case "slices.Clone", "slices.Concat":
+			return true
+		case "builtin:append":
+			return ownedSlice(c, x.Call.Args[0], depth+1)
+		}
+	}
+	return false
 }
